@@ -1153,8 +1153,9 @@ consumes the reply exactly when it is complete, in whatever pieces it arrives, n
 next station, and — the requester's view having been the one-station ring (`HQ0.view`) — its view is now the ring view
 of the TWO-station ring (`RingView M' aL` for the ascending list `M'` of the two addresses; `HQ3.last`, via
 `AbstractRing.viewOk_setNext`); its state is `PassToken` (token holder: it will pass the token to the new station after the
-synchronisation pause) resp. `ClaimToken(Scan)`.  The token pass to the new station and its first visit are not
-part of this theorem. -/
+synchronisation pause) resp. `ClaimToken(Scan)`.  The listener ends idle (`ActiveIdle`, nothing pending), ready, with the requester as
+its previous station (`HQ3.ymw`) — the precondition of `adopted_station_gets_token`, which proves the token pass; its
+first visit is not proved. -/
 theorem gap_request_answered_ready (cfg : Cfg) (hok : cfg.Ok) (G : Nat) (hG : cfg.slot + 3 * cfg.P ≤ G) (x y : Nat)
     (r : Int) (r0 : TokenRing) (T : List Telegram) (aL aH : Nat)
     (hrdy : (hearAll aL T r0).readyForRing = true ∧ (hearAll aL T r0).ps = aL)
